@@ -44,3 +44,27 @@ def ecdh_both_parties(priv_a, pub_a, priv_b, pub_b):
     z_a = _compute_ecdh(priv_a, pub_b)
     z_b = _compute_ecdh(priv_b, pub_a)
     return (z_a, z_b)
+
+
+# ---------------------------------------------------------------------------------------------------- export / import round trips (C08)
+from Crypto.PublicKey.ECC import _import_public_der
+
+
+def sec1_roundtrip(key, name):
+    """SEC 1 uncompressed encoding of a NIST key, decoded again under one of the curve's names"""
+    enc = key._export_SEC1(False)
+    return _import_public_der(enc, curve_name=name)
+
+
+from Crypto.PublicKey.ECC import construct, _import_curve25519_public_key, _import_curve448_public_key
+
+
+def x25519_roundtrip(key):
+    """RFC 7748 raw public key of an X25519 key, decoded again"""
+    enc = key._export_montgomery_public()
+    return construct(curve='Curve25519', point_x=_import_curve25519_public_key(enc))
+
+
+def x448_roundtrip(key):
+    enc = key._export_montgomery_public()
+    return construct(curve='Curve448', point_x=_import_curve448_public_key(enc))
